@@ -93,12 +93,13 @@ type SpecDB struct {
 	PurePkgs  map[string]bool
 	CodecPkgs map[string]bool
 	Immutable map[string]string // heap-array name prefix of an immutable field -> pkg.Type.field
+	NonNil    map[string]bool   // pkg.Type.field: pointer field set to a non-nil value by every constructor, never reassigned
 	Files     []string
 	Assumes   int
 }
 
 func newSpecDB() *SpecDB {
-	return &SpecDB{Contracts: map[string]*Contract{}, Macros: map[string]*SpecMacro{}, UFs: map[string]*UFDecl{}, PureIface: map[string]bool{}, PurePkgs: map[string]bool{}, CodecPkgs: map[string]bool{}, Immutable: map[string]string{}}
+	return &SpecDB{Contracts: map[string]*Contract{}, Macros: map[string]*SpecMacro{}, UFs: map[string]*UFDecl{}, PureIface: map[string]bool{}, PurePkgs: map[string]bool{}, CodecPkgs: map[string]bool{}, Immutable: map[string]string{}, NonNil: map[string]bool{}}
 }
 
 // rewriteImp turns the infix implication a ==> b (lowest precedence, right
@@ -262,7 +263,7 @@ func (db *SpecDB) loadSpecFile(path, pkgPath string) error {
 		lines = append(lines, rawLine{body, i + 1})
 	}
 	// join continuation lines: a line whose first word is not a keyword / directive continues the previous one
-	directives := map[string]bool{"func": true, "extern": true, "spec": true, "uf": true, "axiom": true, "lemma": true, "iface": true, "end": true, "purefn": true, "purepkg": true, "codecpkg": true, "immutable": true}
+	directives := map[string]bool{"func": true, "extern": true, "spec": true, "uf": true, "axiom": true, "lemma": true, "iface": true, "end": true, "purefn": true, "purepkg": true, "codecpkg": true, "immutable": true, "nonnil": true}
 	var joined []rawLine
 	for _, l := range lines {
 		w := firstWord(l.text)
@@ -376,6 +377,17 @@ func (db *SpecDB) loadSpecFile(path, pkgPath string) error {
 			for _, f := range strings.Fields(rest) {
 				if i := strings.Index(f, "."); i > 0 && pkgPath != "" {
 					db.Immutable["H$"+sanitize(pkgPath+"."+f[:i])+"$."+f[i+1:]] = pkgPath + "." + f
+				}
+			}
+		case "nonnil":
+			// nonnil Type.field ...: a pointer field that every composite literal of Type sets to the
+			// result of a constructor call (New*/new*) or to &literal, that is never assigned afterwards
+			// and whose type is never created zero-valued (all checked syntactically over the loaded
+			// packages); a load of the field yields a non-nil pointer
+			for _, f := range strings.Fields(rest) {
+				if i := strings.Index(f, "."); i > 0 && pkgPath != "" {
+					db.Immutable["H$"+sanitize(pkgPath+"."+f[:i])+"$."+f[i+1:]] = pkgPath + "." + f
+					db.NonNil[pkgPath+"."+f] = true
 				}
 			}
 		case "purepkg":
